@@ -1,19 +1,11 @@
-"""The property table: which harness packages, tests, case counts and shards decide each property."""
+"""The property table: one module per property under driver/table/ (cNN.py), each with register(prop, J)."""
+import importlib, os, sys
+
+_dir = os.path.join(os.path.dirname(os.path.abspath(__file__)), "table")
+sys.path.insert(0, _dir)
 
 
 def register(prop, J):
-    prop("C15",
-         rule="rapid-generated (base URL x context path x root name x encoded resource path x query); non-trivial = context "
-              "path non-empty or path/query holds a %XX, dot segment or ROR2 delimiter; distinct by (base, path, query)",
-         jobs=[
-             J("url-v2", "v2", "urlprops", "^TestC15", checks=(30000, 1500000), shards=(2, 16)),
-             J("url-v1", "v1", "urlprops", "^TestC15", checks=(15000, 500000), shards=(1, 16)),
-         ],
-         level_text="generated-input search against a URL model written from the property text: every generated (base URL, "
-                    "encoded path, query) must come out byte-identical in scheme, host, escaped path, raw query and request target; "
-                    "tens of thousands of cases per run in both module generations; no absence proof",
-         level_note="trusts net/url's parsing of the generated base URL and http.NewRequest; the Go HTTP transport itself is not in the loop",
-         technique="property-based testing (rapid) with a reference URL model",
-         design_ref="2/C15",
-         assumptions=["request URL observed on the *http.Request returned by NewGetRequest / NewJsonRequest",
-                      "contexts holding the root name as a complete non-final segment are generated but not asserted (left unspecified by the property)"])
+    for fn in sorted(os.listdir(_dir)):
+        if fn.endswith(".py") and fn[0] == "c":
+            importlib.import_module(fn[:-3]).register(prop, J)
